@@ -20,6 +20,8 @@ def damaged_workspaces(rng, n):
     out.append(Ws([("/w/p/src/a.gleam", "pub type A = List(A)\n\npub fn f(x: A) {\n  x\n}\n"), ("/w/p/gleam.toml", 'name = "p"\n')], "recursive-alias"))
     out.append(Ws([("/w/p/src/a.gleam", "import b.{g}\npub fn f() {\n  g()\n}\n"), ("/w/p/src/b.gleam", "import a.{f}\npub fn g() {\n  f()\n}\n"),
                    ("/w/p/gleam.toml", 'name = "p"\n')], "import-rewired"))
+    out.append(Ws([("/w/p/src/a.gleam", "import b\npub fn f() {\n  b.g()\n}\n"), ("/w/p/src/b.gleam", "import a\npub fn g() {\n  a.f()\n}\n"),
+                   ("/w/p/gleam.toml", 'name = "p"\n')], "import-rewired"))
     for i in range(n):
         k = i % 10
         if k == 8:
@@ -116,6 +118,12 @@ ILL_TYPED = [
     "pub fn lst{n}(x) {{\n  let [a, b] = 1\n  let [c, ..d] = #(1, 2)\n  let e = [..x, 1]\n  [1, ..2]\n}}",
     "pub fn big{n}() {{\n  let t = #(1, 2)\n  t.99999999999999999999\n  999999999999999999999999999999\n  0xFFFFFFFFFFFFFFFFFFFFFFFF\n  1.0e999999\n}}",
     "pub const k{n} = #(1, 2)\npub const j{n}: String = 1\npub fn cst{n}() {{\n  k{n}.{k}\n  j{n}.{k}\n  k{n}(1)\n}}",
+    # recursion that closes through a reference which is not a call: a function passed on, a `use` callback, a let alias, a pipe
+    "pub fn sum_by{n}(xs, f) {{\n  f(xs)\n}}\npub fn size{n}(t) {{\n  sum_by{n}(t, child{n})\n}}\npub fn child{n}(c) {{\n  size{n}(c)\n}}",
+    "pub fn step_a{n}() {{\n  use <- step_b{n}\n  1\n}}\npub fn step_b{n}(f) {{\n  step_a{n}()\n  f()\n}}",
+    "pub fn al_a{n}() {{\n  let g = al_b{n}\n  g()\n}}\npub fn al_b{n}() {{\n  al_a{n}()\n}}",
+    "pub fn pi_a{n}(x) {{\n  x |> pi_b{n}\n}}\npub fn pi_b{n}(y) {{\n  [pi_a{n}, pi_b{n}]\n  y\n}}",
+    "pub fn dm_a{n}(k) {{\n  dm_b{n} k)\n}}\npub fn dm_b{n}(k) {{\n  dm_a{n}(k)\n}}",
     "pub fn shadow{n}(shadow{n}) {{\n  let shadow{n} = shadow{n}(shadow{n})\n  shadow{n}.{k}\n}}",
     "pub fn str{n}(s) {{\n  case s {{\n    \"a\" <> rest -> rest.{k}\n    \"b\" <> _ -> 1\n    _ -> s <> 1\n  }}\n}}",
 ]
@@ -136,6 +144,22 @@ def ill_typed_workspace(rng):
         files.append((f"/w/p/src/m{m}.gleam", "\n\n".join(parts) + "\n"))
     files.append(("/w/p/gleam.toml", 'name = "p"\n'))
     return files
+
+
+def import_cycle(files):
+    """do the modules of the workspace import each other in a circle (a self-import included)?"""
+    g = {}
+    for p, t in files:
+        if p.endswith(".gleam"):
+            name = p.split("/src/")[-1][:-6]
+            g[name] = set(re.findall(r"(?m)^\s*import\s+([a-z0-9_/]+)", t))
+    def reach(a, seen):
+        for b in g.get(a, ()):
+            if b not in seen:
+                seen.add(b)
+                reach(b, seen)
+        return seen
+    return any(a in reach(a, set()) for a in g)
 
 
 def alias_cycle(files):
@@ -221,7 +245,16 @@ def run_sweeps(res, tier, seed, want):
             if want == "C10":
                 for (query, loc, cnt, off) in panics:
                     if "cycle" in loc and "salsa" in loc:
-                        key = "C10/panic/salsa-cycle-on-cyclic-imports"
+                        # which query closes the cycle, and whether the modules import each other in a circle: a cycle of
+                        # inference queries inside an acyclic import graph is another defect than the recorded ones
+                        m = re.search(r"cycle detected:\s+(\w+)", loc)
+                        first = m.group(1) if m else "unknown"
+                        if first.startswith("module_scope"):
+                            key = "C10/panic/salsa-cycle-on-cyclic-imports"
+                        elif import_cycle(ws.files):
+                            key = "C10/panic/salsa-cycle-on-cyclic-imports/" + first
+                        else:
+                            key = "C10/panic/salsa-cycle/" + first
                     else:
                         key = "C10/panic/" + re.sub(r"^/repo/", "", loc.split(" ")[0]) + "/" + query
                     res.add_violation(key, f"{query} panics at {loc} ({cnt} offsets, first at offset {off}) on a {ws.label} workspace",
